@@ -15,12 +15,14 @@ CONSTANTS
   MaxProd,      \* productions per table
   MaxTables, MaxDepth,
   OpenKinds, DeclKindsOn, \* kinds of scoped / plain declarations to generate
-  Forms,        \* subset of {"abs", "caret", "rel"}: name forms beyond the single segment
+  Forms,        \* subset of {"abs", "caret", "rel", "absscope"}: name forms beyond the single segment
+                \* ("absscope": absolute paths for Scope directives only, and no ^ in Scope directives)
   FieldKinds,   \* subset of {"Field", "IndexField", "BankField"} (with FieldOn)
   ScopeOn, FieldOn, MethodFlags, \* Scope directives; Field lists; set of method flag bytes ({} = no methods)
   StmtKinds,    \* subset of {"call0","call1","call2","nest","nestfirst","ret","store","ref","if","op","while"}
   MaxStmts,
   Widths,       \* package-length widths; {} = rotate 1..4 with the position in the program
+  Spine,        \* TRUE: inside a block at most one production (chains Scope{Scope{..{Device}}} only): deep resolve-pass chains
   Excluded,     \* ids of findings whose trigger constructs are left out
   Emit,         \* write complete programs to IOEnv.CASES
   Bug           \* design mutant of the parser design checked by Refines ("" = none)
@@ -48,8 +50,8 @@ DeclForms(nm) ==
   \cup (IF "rel" \in Forms THEN {F(FALSE, 0, <<Last(p), nm>>) : p \in ChildScopes(Cur(st))} ELSE {})
 ScopeForms ==
   {F(FALSE, 0, <<Last(p)>>) : p \in AllScopes \ {<<>>}}
-  \cup (IF "abs" \in Forms THEN {F(TRUE, 0, p) : p \in AllScopes} ELSE {})
-  \cup (IF "caret" \in Forms THEN {F(FALSE, 1, <<Last(p)>>) : p \in AllScopes \ {<<>>}} ELSE {})
+  \cup (IF "abs" \in Forms \/ "absscope" \in Forms THEN {F(TRUE, 0, p) : p \in AllScopes} ELSE {})
+  \cup (IF "caret" \in Forms /\ "absscope" \notin Forms THEN {F(FALSE, 1, <<Last(p)>>) : p \in AllScopes \ {<<>>}} ELSE {})
   \cup (IF "rel" \in Forms THEN ({F(FALSE, 0, <<Last(p), Last(q)>>) : p \in ChildScopes(Cur(st)), q \in AllScopes \ {<<>>}}
                                 \cup {F(FALSE, 0, <<Last(p)>>) : p \in {}}) ELSE {})
 
@@ -97,7 +99,8 @@ Step(t, dprod, dfresh) ==
   /\ st'.err = <<>> /\ st'.trig \cap Excluded = {}
   /\ nprod' = (IF t.k = "endtable" THEN 0 ELSE nprod + dprod) /\ nfresh' = nfresh + dfresh
 
-Room(n) == ~InMethod(st) /\ nprod < MaxProd /\ nfresh + n <= Len(Fresh) /\ st.tab <= MaxTables
+Room(n) == /\ ~InMethod(st) /\ nprod < MaxProd /\ nfresh + n <= Len(Fresh) /\ st.tab <= MaxTables
+           /\ (Spine /\ st.stack # <<>>) => (toks # <<>> /\ Last(toks).k \in {"scope", "open"})
 OpenObj   == /\ Room(1) /\ Depth < MaxDepth
              /\ \E kd \in OpenKinds, nm \in NextNames : \E f \in DeclForms(nm), w \in W :
                   Step([k |-> "open", kind |-> kd, f |-> f, w |-> w, args |-> OpenArgs(kd)], 1, 1)
@@ -162,8 +165,10 @@ LoaderSound == TreeShaped(st) /\ StackSound(st) /\ CallsSound(st) /\ st = Load(t
 \* only be generated once the finding is closed, and then AmlNsImpl has to follow the repaired code)
 ImplDeviates == {"D1", "D1b", "D2", "D2c", "D10", "D11"}
 Expected == [ns |-> st.ns, calls |-> [i \in 1..Len(st.calls) |-> [tab |-> st.calls[i].tab, p |-> st.calls[i].p, n |-> Len(st.calls[i].a)]]]
-RefinesAll == IsComplete => I!Parse(toks, Bug) = Expected
-Refines == (IsComplete /\ st.trig \cap ImplDeviates = {}) => I!Parse(toks, Bug) = Expected
+Same(r) == "res" \notin DOMAIN r /\ r.ns = Expected.ns /\ r.calls = Expected.calls
+RefinesAll == IsComplete => Same(I!Parse(toks, Bug))
+Refines == (IsComplete /\ st.trig \cap ImplDeviates = {}) => Same(I!Parse(toks, Bug))
 \* leg G: every complete program goes to the Go harness
-EmitProg == (Emit /\ IsComplete) => CSVWrite("%1$s", <<ToJson([toks |-> toks])>>, IOEnv.CASES)
+\* (np = merge/relocate passes per table that the design model needs: evidence that deep dependency chains are generated)
+EmitProg == (Emit /\ IsComplete) => CSVWrite("%1$s", <<ToJson([toks |-> toks, np |-> I!Parse(toks, "").passes])>>, IOEnv.CASES)
 ====
